@@ -182,7 +182,7 @@ func Messages(tcp bool, thorough bool, rng *rand.Rand) []M {
 	// seeded random messages
 	nr := 1500
 	if thorough {
-		nr = 30000
+		nr = 8000 // (30000 took the judge more than 30 min on 16 cores)
 	}
 	for i := 0; i < nr; i++ {
 		m := next()
